@@ -231,7 +231,8 @@ inline vegas_pdf<T> vegas_refine_pdf(vegas_pdf<T> const& pdf, T alpha, std::vect
             if (tmp[bin] != T())
             {
                 T const r = tmp[bin] / norm;
-                T const impfun = pow((r - T(1.0)) / log(r), alpha);
+                // for r -> 1 the ratio (r - 1) / log(r) goes to one, at r = 1 it is 0 / 0
+                T const impfun = (r == T(1.0)) ? T(1.0) : pow((r - T(1.0)) / log(r), alpha);
                 average_per_bin += impfun;
                 tmp[bin] = impfun;
             }
